@@ -159,11 +159,11 @@ theorem loop_run (R : Res) (fuel : Nat) (mods : Array Nat) (s : PState) (hn : No
   rw [e1']
   exact ⟨hchain, hbook, hcov', hsub, hcomp hfuel⟩
 
-/-- In the reference semantics: when the loop leaves no `duplicate-node` error , its final view and its leftover set are THE result
+/-- In the reference semantics: when no application of the loop collides , its final view and its leftover set are THE result
 (`Spec.IsResult`) of the pending set. -/
-theorem loop_isResult (R : Res) (fuel : Nat) (mods : Array Nat) (s : PState) (hn : NodupPending s)
+theorem loop_isResult_free (R : Res) (fuel : Nat) (mods : Array Nat) (s : PState) (hn : NodupPending s)
     (hcov : Cover s mods) (hfuel : mu s < fuel)
-    (hfree : ∀ er, FVisErr (loopState R fuel mods s).forest er → er.cls ≠ "duplicate-node") :
+    (hfr : ∀ ev ∈ loopTrace R fuel mods s, EvFree R s.forest ev) :
     Valid (PSet R s.forest s) (viewOf s.forest) ((loopTrace R fuel mods s).map (absEv R s.forest)) ∧
     Complete (PSet R s.forest s) (viewOf s.forest) ((loopTrace R fuel mods s).map (absEv R s.forest)) ∧
     viewOf (loopState R fuel mods s).forest =
@@ -174,7 +174,6 @@ theorem loop_isResult (R : Res) (fuel : Nat) (mods : Array Nat) (s : PState) (hn
   have hP : ∀ ev ∈ loopTrace R fuel mods s, PSet R s.forest s (absEv R s.forest ev) :=
     fun ev hev => ⟨ev.owner, ev.aug, hbook.fromPending ev hev, rfl⟩
   have hnd := nodup_map_absEv (R := R) (f0 := s.forest) hbook.nodup
-  have hfr := chain_free_of_no_dup_err hchain hfree
   obtain ⟨hvalid, hview⟩ := chain_valid (PSet R s.forest s) hchain hP hnd hfr
   have hleft : ∀ A, PSet R s.forest (loopState R fuel mods s) A ↔
       (PSet R s.forest s A ∧ A ∉ (loopTrace R fuel mods s).map (absEv R s.forest)) := by
@@ -191,22 +190,35 @@ theorem loop_isResult (R : Res) (fuel : Nat) (mods : Array Nat) (s : PState) (hn
   rw [← hview]
   exact hcomp id a ha
 
+/-- The same with the observable hypothesis: the loop leaves no `duplicate-node` error. -/
+theorem loop_isResult (R : Res) (fuel : Nat) (mods : Array Nat) (s : PState) (hn : NodupPending s)
+    (hcov : Cover s mods) (hfuel : mu s < fuel)
+    (hfree : ∀ er, FVisErr (loopState R fuel mods s).forest er → er.cls ≠ "duplicate-node") :
+    Valid (PSet R s.forest s) (viewOf s.forest) ((loopTrace R fuel mods s).map (absEv R s.forest)) ∧
+    Complete (PSet R s.forest s) (viewOf s.forest) ((loopTrace R fuel mods s).map (absEv R s.forest)) ∧
+    viewOf (loopState R fuel mods s).forest =
+      after (viewOf s.forest) ((loopTrace R fuel mods s).map (absEv R s.forest)) ∧
+    (∀ A, PSet R s.forest (loopState R fuel mods s) A ↔
+      (PSet R s.forest s A ∧ A ∉ (loopTrace R fuel mods s).map (absEv R s.forest))) :=
+  loop_isResult_free R fuel mods s hn hcov hfuel
+    (chain_free_of_no_dup_err (loop_run R fuel mods s hn hcov hfuel).1 hfree)
+
 /-! ### order independence -/
 
 /-- Two runs of the loop from the same forest over the same pending sets — any two module
 lists (orders, repetitions) covering the pending trees, any order inside each pending list.
-If the first leaves no `duplicate-node` error, then the second never collides either, both end in
+If no application of the first collides, then none of the second does, both end in
 the same view, and both leave the same augments unapplied. -/
-theorem loop_confluent (R : Res) (fuel1 fuel2 : Nat) (mods1 mods2 : Array Nat) (s1 s2 : PState)
+theorem loop_confluent_free (R : Res) (fuel1 fuel2 : Nat) (mods1 mods2 : Array Nat) (s1 s2 : PState)
     (hforest : s2.forest = s1.forest) (hpend : ∀ id a, a ∈ s2.pendingOf id ↔ a ∈ s1.pendingOf id)
     (hn1 : NodupPending s1) (hn2 : NodupPending s2) (hcov1 : Cover s1 mods1) (hcov2 : Cover s2 mods2)
     (hfuel1 : mu s1 < fuel1) (hfuel2 : mu s2 < fuel2)
-    (hfree : ∀ er, FVisErr (loopState R fuel1 mods1 s1).forest er → er.cls ≠ "duplicate-node") :
+    (hfr1 : ∀ ev ∈ loopTrace R fuel1 mods1 s1, EvFree R s1.forest ev) :
     viewOf (loopState R fuel2 mods2 s2).forest = viewOf (loopState R fuel1 mods1 s1).forest ∧
     (∀ id a, a ∈ (loopState R fuel2 mods2 s2).pendingOf id ↔ a ∈ (loopState R fuel1 mods1 s1).pendingOf id) ∧
     (∀ ev ∈ loopTrace R fuel2 mods2 s2, EvFree R s1.forest ev) ∧
     (∀ x, x ∈ (loopTrace R fuel2 mods2 s2).map Ev.key ↔ x ∈ (loopTrace R fuel1 mods1 s1).map Ev.key) := by
-  obtain ⟨hv1, hc1, hview1, _⟩ := loop_isResult R fuel1 mods1 s1 hn1 hcov1 hfuel1 hfree
+  obtain ⟨hv1, hc1, hview1, _⟩ := loop_isResult_free R fuel1 mods1 s1 hn1 hcov1 hfuel1 hfr1
   obtain ⟨_, hbook1, _, _, _⟩ := loop_run R fuel1 mods1 s1 hn1 hcov1 hfuel1
   obtain ⟨hchain2, hbook2, _, _, hcomp2⟩ := loop_run R fuel2 mods2 s2 hn2 hcov2 hfuel2
   rw [hforest] at hchain2 hcomp2
@@ -218,7 +230,6 @@ theorem loop_confluent (R : Res) (fuel1 fuel2 : Nat) (mods1 mods2 : Array Nat) (
   have hP2 : ∀ ev ∈ loopTrace R fuel2 mods2 s2, PSet R s1.forest s1 (absEv R s1.forest ev) :=
     fun ev hev => ⟨ev.owner, ev.aug, (hpend _ _).mp (hbook2.fromPending ev hev), rfl⟩
   have hnd2 := nodup_map_absEv (R := R) (f0 := s1.forest) hbook2.nodup
-  have hfr1 := chain_free_of_no_dup_err (loop_run R fuel1 mods1 s1 hn1 hcov1 hfuel1).1 hfree
   have hnd1 : ∀ A ∈ (loopTrace R fuel1 mods1 s1).map (absEv R s1.forest), A.roots.Nodup := by
     intro A hA
     obtain ⟨ev, hev, rfl⟩ := List.mem_map.mp hA
@@ -243,6 +254,19 @@ theorem loop_confluent (R : Res) (fuel1 fuel2 : Nat) (mods1 mods2 : Array Nat) (
     exact propext (hA l d).symm
   · intro id a
     rw [hbook2.pending, hbook1.pending, hpend, hkeys]
+
+/-- The same with the observable hypothesis: the first run leaves no `duplicate-node` error. -/
+theorem loop_confluent (R : Res) (fuel1 fuel2 : Nat) (mods1 mods2 : Array Nat) (s1 s2 : PState)
+    (hforest : s2.forest = s1.forest) (hpend : ∀ id a, a ∈ s2.pendingOf id ↔ a ∈ s1.pendingOf id)
+    (hn1 : NodupPending s1) (hn2 : NodupPending s2) (hcov1 : Cover s1 mods1) (hcov2 : Cover s2 mods2)
+    (hfuel1 : mu s1 < fuel1) (hfuel2 : mu s2 < fuel2)
+    (hfree : ∀ er, FVisErr (loopState R fuel1 mods1 s1).forest er → er.cls ≠ "duplicate-node") :
+    viewOf (loopState R fuel2 mods2 s2).forest = viewOf (loopState R fuel1 mods1 s1).forest ∧
+    (∀ id a, a ∈ (loopState R fuel2 mods2 s2).pendingOf id ↔ a ∈ (loopState R fuel1 mods1 s1).pendingOf id) ∧
+    (∀ ev ∈ loopTrace R fuel2 mods2 s2, EvFree R s1.forest ev) ∧
+    (∀ x, x ∈ (loopTrace R fuel2 mods2 s2).map Ev.key ↔ x ∈ (loopTrace R fuel1 mods1 s1).map Ev.key) :=
+  loop_confluent_free R fuel1 fuel2 mods1 mods2 s1 s2 hforest hpend hn1 hn2 hcov1 hcov2 hfuel1 hfuel2
+    (chain_free_of_no_dup_err (loop_run R fuel1 mods1 s1 hn1 hcov1 hfuel1).1 hfree)
 
 /-! ### exactly once -/
 
